@@ -88,6 +88,18 @@ class Plan(object):
         self.shift = 0                      # live environment shift (replay uses a different live environment)
         self.out_vals = None                # values returned by output bodies (default: derived)
         self.uvals = []
+        self.excs = []                      # pre-created exception objects (identity is compared with the twin)
+        self.lenient_outputs = False        # outputs declared with fail_on_no_recorded_result=False (default result -5)
+
+
+def exc_obj(plan, key, cls):
+    """the one exception object this plan raises at `key` (decorated run and twin raise the very same object)"""
+    for k, e in plan.excs:
+        if k == key:
+            return e
+    e = cls()
+    plan.excs.append((key, e))
+    return e
 
 
 class Run(object):
@@ -102,6 +114,7 @@ class Run(object):
         self.handler_calls = []
         self.extractor_calls = 0
         self.result = None
+        self.fired = []         # faults that were really injected into the framework: (kind, step)
 
 
 class _Null(object):
@@ -138,7 +151,7 @@ def make_service(deco, plan, run, handlers=None, params=None):
     def env(kind, arg):
         s = slot(kind, arg)
         if plan.exc[s]:
-            raise Boom()
+            raise exc_obj(plan, ('env', s), Boom)
         v = plan.vals[s] + plan.shift
         if 'unser_value' in run.cur_faults:
             key = (s, plan.shift)
@@ -153,16 +166,18 @@ def make_service(deco, plan, run, handlers=None, params=None):
     def in_body(tag, *args):
         run.journal.append((tag,) + tuple(a for a in args))
         if 'discard_body' in run.cur_faults:
+            run.fired.append(('discard_body', run.cur))
             tr.discard_recording()
         if 'force_body' in run.cur_faults:
             tr.force_sample_recording()
         if plan.term_in_body and run.cur == plan.term_at:
-            raise (Boom2() if plan.term_kind == 1 else Interrupt())
+            raise exc_obj(plan, 'term', Boom2 if plan.term_kind == 1 else Interrupt)
 
     class InH(InputInterceptionDataHandler):
         def prepare_input_for_recording(self, interception_key, result, args, kwargs):
             run.handler_calls.append(('prepare_in', interception_key))
             if 'in_handler' in run.cur_faults:
+                run.fired.append(('in_handler', run.cur))
                 raise Boom2('handler')
             return ['wrapped', result]
 
@@ -174,6 +189,7 @@ def make_service(deco, plan, run, handlers=None, params=None):
         def prepare_output_for_recording(self, interception_key, args, kwargs):
             run.handler_calls.append(('prepare_out', interception_key))
             if 'out_handler' in run.cur_faults:
+                run.fired.append(('out_handler', run.cur))
                 raise Boom2('handler')
             return {'handled': list(args)}
 
@@ -182,6 +198,7 @@ def make_service(deco, plan, run, handlers=None, params=None):
 
     def resolver(self, x):
         if 'key_resolver' in run.cur_faults:
+            run.fired.append(('key_resolver', run.cur))
             raise Boom2('resolver')
         return {'name': self.name}
 
@@ -201,6 +218,7 @@ def make_service(deco, plan, run, handlers=None, params=None):
         return {'user_key': plan.extractor_val, 'user_key2': 'x'}
 
     opkw = {'metadata_extractor': extractor} if plan.extractor else {}
+    outkw = {'fail_on_no_recorded_result': False, 'default_result_when_not_recorded': -5} if plan.lenient_outputs else {}
 
     def out_val(i):
         if plan.out_vals is not None:
@@ -267,18 +285,18 @@ def make_service(deco, plan, run, handlers=None, params=None):
             in_body('n')
             return self.a(0) + 1
 
-        @deco.intercept_output('o')
+        @deco.intercept_output('o', **outkw)
         def o(self, v, k=0):
             in_body('o', v, k)
             return out_val(k)
 
         @staticmethod
-        @deco.static_intercept_output('t')
+        @deco.static_intercept_output('t', **outkw)
         def t(v):
             in_body('t', v)
             return out_val(2)
 
-        @deco.intercept_output('u', data_handler=OutH())
+        @deco.intercept_output('u', data_handler=OutH(), **outkw)
         def u(self, v):
             in_body('u', v)
             return out_val(3)
@@ -289,6 +307,8 @@ def make_service(deco, plan, run, handlers=None, params=None):
     def call(self, kind, arg, acc):
         bad = Unserializable(1) if 'key_arg' in run.cur_faults else None
         x = bad if bad is not None else arg
+        if bad is not None and kind in ('A', 'B', 'S', 'R', 'C', 'D', 'H'):
+            run.fired.append(('key_arg', run.cur))
         if kind == 'A':
             return self.a(x)
         if kind == 'B':
@@ -326,11 +346,12 @@ def make_service(deco, plan, run, handlers=None, params=None):
             run.cur = i
             run.cur_faults = tuple(k for k, at in plan.faults if at == i)
             if 'discard_op' in run.cur_faults:
+                run.fired.append(('discard_op', i))
                 tr.discard_recording()
             if 'force_op' in run.cur_faults:
                 tr.force_sample_recording()
             if (not plan.term_in_body) and plan.term_at == i:
-                raise (Boom2() if plan.term_kind == 1 else Interrupt())
+                raise exc_obj(plan, 'term', Boom2 if plan.term_kind == 1 else Interrupt)
             kind = KINDS[op // 2]
             arg = op % 2
             n = 1
@@ -342,15 +363,15 @@ def make_service(deco, plan, run, handlers=None, params=None):
                     r = call(self, kind, arg, acc)
                     run.sitelog.append((i, 'ret', r))
                     acc = acc + r
-                except Boom:
-                    run.sitelog.append((i, 'exc', 'Boom'))
+                except Boom as ex:
+                    run.sitelog.append((i, 'exc', 'Boom', ex))
                     acc = acc + 7
         run.cur = None
         run.cur_faults = ()
         if plan.final == 1:
-            raise Boom()
+            raise exc_obj(plan, 'final', Boom)
         if plan.final == 2:
-            raise Interrupt()
+            raise exc_obj(plan, 'final', Interrupt)
         return acc
 
     return Svc
@@ -369,10 +390,12 @@ def execute(Svc, plan, run):
     return out
 
 
-def same_outcome(a, b):
-    """two ('ret'|'exc', x) outcomes agree: equal value / same exception type"""
+def same_outcome(a, b, identity=False):
+    """two ('ret'|'exc', x) outcomes agree: equal value / same exception type (identity: the very same object)"""
     if a[0] != b[0]:
         return False
+    if identity and a[0] == 'exc':
+        return a[1] is b[1]
     if a[0] == 'ret':
         return a[1] == b[1] if not isinstance(a[1], UVal) else a[1] is b[1]
     return type(a[1]) is type(b[1])
@@ -394,6 +417,8 @@ def same_sitelog(l1, l2, identity=False):
             elif not (x[2] == y[2]):
                 return False
         elif x[2] != y[2]:
+            return False
+        elif identity and x[3] is not y[3]:
             return False
     return True
 
